@@ -329,6 +329,28 @@ func (e *ecEnv) checkKey(sk signature.Signer, label string, seed []byte) (ecKey,
 	px, py := e.d.PubXY(pub)
 	c.Check("Public", N+"/Public/differs-from-field", px.Cmp(x) == 0 && py.Cmp(y) == 0, desc)
 	c.Check("Equal", N+"/PublicKey.Equal/false-on-same-key", pub.Equal(k.pk) && k.pk.Equal(pub), desc)
+	// the key returned by Public() is the caller's: decoding another key into it must not reach the signer (clone)
+	{
+		s2 := e.d.NewPriv()
+		if _, err := s2.SetBytes(b); err == nil {
+			other := e.d.NewPriv()
+			ob := append([]byte(nil), b...)
+			// a different valid key pair: the generator with scalar 1 has the documented layout pub||scalar
+			if gk := e.smallKeyBytes(len(pb)); gk != nil {
+				ob = gk
+			}
+			if _, err := other.SetBytes(ob); err == nil {
+				foreign := other.Public().Bytes()
+				before := s2.Public().Bytes()
+				scratch := s2.Public()
+				_, err := scratch.SetBytes(foreign)
+				after := s2.Public().Bytes()
+				c.Check("Public", N+"/Public/returned-key-aliases-the-signer", err != nil || (bytes.Equal(after, before) && bytes.Equal(s2.Bytes(), b)), func() string {
+					return desc() + fmt.Sprintf(": after SetBytes(%s) on the value returned by Public(), Public() = %s (was %s)", hx(foreign), hx(after), hx(before))
+				})
+			}
+		}
+	}
 	for _, extra := range []int{0, 1, 40} {
 		in := append(append([]byte(nil), pb...), bytes.Repeat([]byte{0xA5}, extra)...)
 		p2 := e.d.NewPub()
@@ -380,6 +402,20 @@ func (e *ecEnv) checkKey(sk signature.Signer, label string, seed []byte) (ecKey,
 		}
 	}
 	return k, true
+}
+
+// smallKeyBytes: the documented private-key layout (x || y || scalar) of the key with scalar 7.
+func (e *ecEnv) smallKeyBytes(lenPub int) []byte {
+	q := e.g.C.Mul(e.g.G, big.NewInt(7))
+	if q.Inf || lenPub%2 != 0 || len(q.X) != 1 {
+		return nil
+	}
+	h := lenPub / 2
+	if q.X[0].BitLen() > 8*h || q.Y[0].BitLen() > 8*h {
+		return nil
+	}
+	out := append(q.X[0].FillBytes(make([]byte, h)), q.Y[0].FillBytes(make([]byte, h))...)
+	return append(out, big.NewInt(7).FillBytes(make([]byte, e.nb))...)
 }
 
 func (e *ecEnv) noteR(r *big.Int, k ecKey, msg []byte) {
